@@ -764,6 +764,22 @@ pub open spec fn degree_map<T: Eq + PartialOrd + Send + Sync, A: Clone>(g: Graph
     &&& forall|k: T| #[trigger] m.contains_key(k) <==> g.knows(k)
     &&& forall|k: T| #[trigger] m.contains_key(k) ==> is_degree_of(g, k, m[k])
 }
+// the weighted degrees get_node_weighted_degree / _in_degree / _out_degree report for `name` (sums over uninterpreted f64 +, A1)
+pub open spec fn is_weighted_degree_of<T: Eq + PartialOrd + Send + Sync, A: Clone>(g: Graph<T, A>, name: T, d: f64) -> bool {
+    exists|op: Seq<T>, os: Seq<T>| #[trigger] orders_ok(g, name, op, os) && ({
+        let list = node_edge_list(g, name, op, os);
+        &&& g.specs.directed ==> d == wsum(list)
+        &&& !g.specs.directed ==> d == fadd(wsum(list), wsum_at(list, loop_positions(list, name)))
+    })
+}
+pub open spec fn is_weighted_in_degree_of<T: Eq + PartialOrd + Send + Sync, A: Clone>(g: Graph<T, A>, name: T, d: f64) -> bool {
+    exists|op: Seq<T>| #[trigger] op.no_duplicates() && (forall|x: T| g.pred_names(name).contains(x) <==> #[trigger] op.contains(x))
+        && d == wsum(in_edge_lists(g, name, op).flatten())
+}
+pub open spec fn is_weighted_out_degree_of<T: Eq + PartialOrd + Send + Sync, A: Clone>(g: Graph<T, A>, name: T, d: f64) -> bool {
+    exists|os: Seq<T>| #[trigger] os.no_duplicates() && (forall|x: T| g.succ_names(name).contains(x) <==> #[trigger] os.contains(x))
+        && d == wsum(out_edge_lists(g, name, os).flatten())
+}
 
 impl<T, A> Graph<T, A>
 where
@@ -909,6 +925,170 @@ let all_v = self.get_all_nodes();
         // [C09.degree.all_nodes_out_degree_map]
         !self.specs.directed ==> is_err_kind(r, ErrorKind::WrongMethod),
         self.specs.directed ==> r.is_ok() && out_degree_map(*self, r.unwrap()@),
+//@ end
+
+//@ extract fn src/graph/query.rs size props=C09,C20 ty=Graph
+//@ rewrite
+-> f64
+//@ with
+-> (r: f64)
+//@ rewrite
+self.get_all_edges().len() as f64,
+//@ with
+vcast_usize_f64(self.get_all_edges().len()),
+//@ rewrite
+self.get_all_edges().iter().map(|e| e.weight).sum(),
+//@ with
+vsum_weights(&self.get_all_edges()),
+//@ spec
+    ensures
+        // [C09.count.size_unweighted_is_the_edge_count_weighted_is_the_weight_sum]
+        !weighted ==> r == usize_to_f64(self.stored_edge_count() as usize),
+        weighted ==> exists|l: Seq<Arc<Edge<T, A>>>| l.len() == self.all_edges_seq().len()
+            && (forall|i: int| 0 <= i < l.len() ==> *(#[trigger] l[i]) == self.all_edges_seq()[i]) && r == wsum(l),
+//@ end
+
+//@ extract fn src/graph/degree.rs get_weighted_degree_for_all_nodes props=C09,C20 ty=Graph
+//@ rewrite
+-> HashMap<T, f64>
+//@ with
+-> (r: HashMap<T, f64>)
+//@ rewrite
+self.get_all_nodes()
+            .iter()
+            .map(|n| {
+//@ with
+let all_v = self.get_all_nodes();
+        let ghost av = all_v@;
+        let deg_fn = |n: &&Arc<Node<T, A>>| -> (o: (T, f64))
+            requires self.knows(n.name), self.wf_nodes(), self.wf_estore(), self.wf_index_sets(), self.wf_name_sets(), self.wf_name_store(), name_order_total::<T>(),
+            ensures o.0 == n.name, is_weighted_degree_of(*self, n.name, o.1),
+        {
+//@ rewrite
+            })
+            .collect()
+//@ with
+            };
+        let out = viter_map_collect_map(all_v, deg_fn);
+        proof {
+            let pairs = choose|pairs: Seq<(T, f64)>| pairs.len() == av.len() && (forall|i: int| 0 <= i < av.len() ==> call_ensures(deg_fn, (&av[i],), #[trigger] pairs[i]))
+                && out@ == map_of_pairs(pairs);
+            assert forall|i: int| 0 <= i < pairs.len() implies (#[trigger] pairs[i]).0 == self.nodes_vec@[i].name && is_weighted_degree_of(*self, self.nodes_vec@[i].name, pairs[i].1) by {
+                assert(call_ensures(deg_fn, (&av[i],), pairs[i]));
+            }
+            lemma_pairs_to_node_map(*self, pairs);
+            assert forall|k: T| #[trigger] out@.contains_key(k) implies is_weighted_degree_of(*self, k, out@[k]) by {
+                let i = self.nodes_map@[k] as int;
+                assert(out@[self.nodes_vec@[i].name] == pairs[i].1);
+            }
+        }
+        out
+//@ spec
+    requires
+        self.wf_nodes(), self.wf_estore(),
+        self.wf_index_sets(), self.wf_name_sets(), self.wf_name_store(), name_order_total::<T>(),
+    ensures
+        // [C09.degree.all_nodes_weighted_degree_map]
+        forall|k: T| #[trigger] r@.contains_key(k) <==> self.knows(k),
+        forall|k: T| #[trigger] r@.contains_key(k) ==> is_weighted_degree_of(*self, k, r@[k]),
+//@ end
+
+//@ extract fn src/graph/degree.rs get_weighted_in_degree_for_all_nodes props=C09,C20 ty=Graph
+//@ rewrite
+-> Result<HashMap<T, f64>, Error>
+//@ with
+-> (r: Result<HashMap<T, f64>, Error>)
+//@ rewrite
+Ok(self
+            .get_all_nodes()
+            .iter()
+            .map(|n| {
+//@ with
+let all_v = self.get_all_nodes();
+        let ghost av = all_v@;
+        let deg_fn = |n: &&Arc<Node<T, A>>| -> (o: (T, f64))
+            requires self.knows(n.name), self.specs.directed, self.wf_nodes(), self.wf_estore(), self.wf_index_sets(), self.wf_name_sets(), self.wf_name_store(),
+            ensures o.0 == n.name, is_weighted_in_degree_of(*self, n.name, o.1),
+        {
+//@ rewrite
+            })
+            .collect())
+//@ with
+            };
+        let out = viter_map_collect_map(all_v, deg_fn);
+        proof {
+            let pairs = choose|pairs: Seq<(T, f64)>| pairs.len() == av.len() && (forall|i: int| 0 <= i < av.len() ==> call_ensures(deg_fn, (&av[i],), #[trigger] pairs[i]))
+                && out@ == map_of_pairs(pairs);
+            assert forall|i: int| 0 <= i < pairs.len() implies (#[trigger] pairs[i]).0 == self.nodes_vec@[i].name && is_weighted_in_degree_of(*self, self.nodes_vec@[i].name, pairs[i].1) by {
+                assert(call_ensures(deg_fn, (&av[i],), pairs[i]));
+            }
+            lemma_pairs_to_node_map(*self, pairs);
+            assert forall|k: T| #[trigger] out@.contains_key(k) implies is_weighted_in_degree_of(*self, k, out@[k]) by {
+                let i = self.nodes_map@[k] as int;
+                assert(out@[self.nodes_vec@[i].name] == pairs[i].1);
+            }
+        }
+        let res: Result<HashMap<T, f64>, Error> = Ok(out);
+        proof { assert(res.unwrap()@ == out@); }
+        res
+//@ spec
+    requires
+        self.wf_nodes(), self.wf_estore(),
+        self.wf_index_sets(), self.wf_name_sets(), self.wf_name_store(),
+    ensures
+        // [C09.degree.all_nodes_weighted_in_degree_map]
+        !self.specs.directed ==> is_err_kind(r, ErrorKind::WrongMethod),
+        self.specs.directed ==> r.is_ok() && (forall|k: T| #[trigger] r.unwrap()@.contains_key(k) <==> self.knows(k))
+            && (forall|k: T| #[trigger] r.unwrap()@.contains_key(k) ==> is_weighted_in_degree_of(*self, k, r.unwrap()@[k])),
+//@ end
+
+//@ extract fn src/graph/degree.rs get_weighted_out_degree_for_all_nodes props=C09,C20 ty=Graph
+//@ rewrite
+-> Result<HashMap<T, f64>, Error>
+//@ with
+-> (r: Result<HashMap<T, f64>, Error>)
+//@ rewrite
+Ok(self
+            .get_all_nodes()
+            .iter()
+            .map(|n| {
+//@ with
+let all_v = self.get_all_nodes();
+        let ghost av = all_v@;
+        let deg_fn = |n: &&Arc<Node<T, A>>| -> (o: (T, f64))
+            requires self.knows(n.name), self.specs.directed, self.wf_nodes(), self.wf_estore(), self.wf_index_sets(), self.wf_name_sets(), self.wf_name_store(),
+            ensures o.0 == n.name, is_weighted_out_degree_of(*self, n.name, o.1),
+        {
+//@ rewrite
+            })
+            .collect())
+//@ with
+            };
+        let out = viter_map_collect_map(all_v, deg_fn);
+        proof {
+            let pairs = choose|pairs: Seq<(T, f64)>| pairs.len() == av.len() && (forall|i: int| 0 <= i < av.len() ==> call_ensures(deg_fn, (&av[i],), #[trigger] pairs[i]))
+                && out@ == map_of_pairs(pairs);
+            assert forall|i: int| 0 <= i < pairs.len() implies (#[trigger] pairs[i]).0 == self.nodes_vec@[i].name && is_weighted_out_degree_of(*self, self.nodes_vec@[i].name, pairs[i].1) by {
+                assert(call_ensures(deg_fn, (&av[i],), pairs[i]));
+            }
+            lemma_pairs_to_node_map(*self, pairs);
+            assert forall|k: T| #[trigger] out@.contains_key(k) implies is_weighted_out_degree_of(*self, k, out@[k]) by {
+                let i = self.nodes_map@[k] as int;
+                assert(out@[self.nodes_vec@[i].name] == pairs[i].1);
+            }
+        }
+        let res: Result<HashMap<T, f64>, Error> = Ok(out);
+        proof { assert(res.unwrap()@ == out@); }
+        res
+//@ spec
+    requires
+        self.wf_nodes(), self.wf_estore(),
+        self.wf_index_sets(), self.wf_name_sets(), self.wf_name_store(),
+    ensures
+        // [C09.degree.all_nodes_weighted_out_degree_map]
+        !self.specs.directed ==> is_err_kind(r, ErrorKind::WrongMethod),
+        self.specs.directed ==> r.is_ok() && (forall|k: T| #[trigger] r.unwrap()@.contains_key(k) <==> self.knows(k))
+            && (forall|k: T| #[trigger] r.unwrap()@.contains_key(k) ==> is_weighted_out_degree_of(*self, k, r.unwrap()@[k])),
 //@ end
 }
 
